@@ -90,6 +90,69 @@ theorem c10_implicit_copy (bases : Bases) (dctor : Option SM) (octor : Bool) (dt
     isCopyV (.mk bases dctor octor none none dtor false fields vfns) v = (ownDtorOk dtor v && copyB bases && copyF fields) := by
   simp [isCopyV]
 
+theorem gate_mono (sm : SM) (v v' : Nat) (h : v ≤ v') :
+    (gate sm v = .yes → gate sm v' = .yes) ∧ (gate sm v = .implicit → gate sm v' = .implicit) := by
+  unfold gate
+  by_cases h1 : sm.vis > v
+  · simp [h1]
+  · have h2 : ¬ sm.vis > v' := by omega
+    simp only [h1, h2, if_false]
+    exact ⟨fun x => x, fun x => x⟩
+
+/-- **Access is monotone**: what a less privileged context may do, a more privileged one may do as
+well — a class destructible / default-constructible / copy-constructible for `min_vis = v` is so
+for every `v' ≥ v` (public ⊂ protected ⊂ private access) -/
+theorem c10_access_monotone (c : Cls) (v v' : Nat) (h : v ≤ v') :
+    (isDestructibleV c v = true → isDestructibleV c v' = true) ∧
+    (isDefaultV c v = true → isDefaultV c v' = true) ∧
+    (isCopyV c v = true → isCopyV c v' = true) := by
+  obtain ⟨bases, dctor, octor, cctor, mctor, dtor, ma, fields, vfns⟩ := c
+  refine ⟨?_, ?_, ?_⟩
+  · cases dtor with
+    | none => simp [isDestructibleV]
+    | some sm =>
+      have hg := gate_mono sm v v' h
+      simp only [isDestructibleV]
+      cases hgv : gate sm v with
+      | no => simp
+      | yes => simp [hg.1 hgv]
+      | implicit => simp [hg.2 hgv]
+  · cases dctor with
+    | none => simp [isDefaultV]
+    | some sm =>
+      have hg := gate_mono sm v v' h
+      simp only [isDefaultV]
+      cases hgv : gate sm v with
+      | no => simp
+      | yes => simp [hg.1 hgv]
+      | implicit => simp [hg.2 hgv]
+  · have hd : ownDtorOk dtor v = true → ownDtorOk dtor v' = true := by
+      cases dtor with
+      | none => simp [ownDtorOk]
+      | some sm =>
+        simp only [ownDtorOk, Bool.and_eq_true, Bool.not_eq_true', decide_eq_false_iff_not]
+        intro ⟨h1, h2⟩
+        exact ⟨by omega, h2⟩
+    cases cctor with
+    | none =>
+      simp only [isCopyV]
+      split
+      · simp
+      · simp
+      · simp only [Bool.and_eq_true]
+        intro ⟨⟨h1, h2⟩, h3⟩
+        exact ⟨⟨hd h1, h2⟩, h3⟩
+    | some sm =>
+      have hg := gate_mono sm v v' h
+      simp only [isCopyV]
+      cases hgv : gate sm v with
+      | no => simp
+      | yes => simp [hg.1 hgv]
+      | implicit =>
+        simp only [hg.2 hgv, Bool.and_eq_true]
+        intro ⟨⟨h1, h2⟩, h3⟩
+        exact ⟨⟨hd h1, h2⟩, h3⟩
+
 /-! ### non-vacuity and regression examples -/
 
 private def noSM : Option SM := none
